@@ -5,7 +5,8 @@
        X[D*N, feature major]  nnz (r c v)*nnz  ndv dv*ndv
          -> "ok <lhs D*D> <rhs D*D>"  (row major, full tables)   |  "oob site index size"
      S <npe|lltsa|lpp> N D  X[D*N]  nnz (r c v)*  ndv dv*  lhs[D*D] rhs[D*D]
-         -> "spec 1" | "spec 0"       (spec_construct_b on the tables the IMPLEMENTATION returned)
+         -> "spec <s> <f>"  s = spec_construct_b (what the lower-triangle reader sees), f = spec_full_b (the FULL
+            tables), both on the tables the IMPLEMENTATION returned
      P <npe|lltsa|lpp> N D  X[D*N]  nnz (r c v)*  ndv dv*
          -> "ref <A D*D> <B D*D>"     (the pencil the property names)
      J N D d  X[D*N, feature major]  P[D*d, row major]
@@ -116,7 +117,9 @@ let () =
            | "S" ->
              let lhs = List.init d (fun _ -> List.init d (fun _ -> next_q ())) in
              let rhs = List.init d (fun _ -> List.init d (fun _ -> next_q ())) in
-             Printf.printf "spec %d\n" (if spec_construct_b m nn dd xl wl dvl lhs rhs then 1 else 0)
+             (* first flag: what a lower-triangle reader sees; second flag: the FULL tables *)
+             Printf.printf "spec %d %d\n" (if spec_construct_b m nn dd xl wl dvl lhs rhs then 1 else 0)
+               (if spec_full_b m nn dd xl wl dvl lhs rhs then 1 else 0)
            | "P" ->
              print_string ("ref" ^ show_tables (ref_pencil m nn dd xl wl dvl) ^ "\n")
            | _ -> failwith "bad command"
